@@ -16,6 +16,9 @@ From MV Require Import Dir.DirModel.
 From MV Require Import Dir.DirProofs.
 From MV Require Import Dir.Lines.
 From MV Require Import Dir.LinesProofs.
+From MV Require Import Opt.OptModel.
+From MV Require Import Opt.OptComments.
+From MV Require Import Dir.DirTokenizer.
 Import ListNotations.
 
 (* Every construct - leaf, block quote, list item, plain div, backtick or colon directive with no / ':key:' / '---'
@@ -32,6 +35,17 @@ Theorem C04_lines_nested :
   document_lines tokenize yaml_load sg first_line doc = Ok (lift (locate_seq 1 doc)).
 Proof. exact lines_nested. Qed.
 Print Assumptions C04_lines_nested.
+
+(* with the C07 model of options_to_items as the tokenizer and a class without arguments (note, tip, warning ...)
+   nothing is assumed about the tokenizer: "accepts every text" follows from C07_only_tokenize_error *)
+Theorem C04_lines_nested_c07 :
+  forall yaml_load sg first_line,
+  has_option_spec sg = true -> no_arguments sg = true ->
+  first_line_is_body sg first_line = false ->
+  forall doc, wf_seq doc = true ->
+  document_lines c07_tokenize yaml_load sg first_line doc = Ok (lift (locate_seq 1 doc)).
+Proof. exact lines_nested_c07. Qed.
+Print Assumptions C04_lines_nested_c07.
 
 (* the same for a block anywhere inside a nested render: [base] is the lineno accumulated so far, [idx] the
    token.map[0] the parser reports (the inductive statement behind C04_lines_nested) *)
